@@ -1,0 +1,24 @@
+/*
+ * SPDX-FileCopyrightText: © 2017-2025 Istari Digital, Inc.
+ * SPDX-License-Identifier: Apache-2.0
+ */
+
+package simd
+
+// Search finds the first idx for which xs[idx] >= k in xs.
+func Search(xs []uint64, k uint64) int16 {
+	// The assembly kernel reads keys in groups of four (8 words) and must not be
+	// handed anything else, or it would compare memory beyond len(xs).
+	n := len(xs) &^ 7
+	if n > 0 {
+		if idx := search(xs[:n], k); int(idx) < n/2 {
+			return idx
+		}
+	}
+	for i := n; i < len(xs); i += 2 {
+		if xs[i] >= k {
+			return int16(i / 2)
+		}
+	}
+	return int16(len(xs) / 2)
+}
